@@ -127,6 +127,28 @@ CHECKS["C09"] = dict(
               "SPHEvaluator",
     design="2/C09")
 
+CHECKS["C20"] = dict(
+    level="other",
+    text="Which property/constant names an array has is a solver variable "
+         "(one Bool per name, at most 2 missing per run). The real "
+         "AccelerationEval constructor (check_equation_array_properties, "
+         "Group/MegaGroup) runs on such arrays for every shipped equation "
+         "class of the selected modules (all modules in the thorough tier) "
+         "and the real stepper check for every shipped IntegratorStep; z3 "
+         "decides per path that 'no error => every name the generated "
+         "set-up code dereferences is present' and 'error => it names the "
+         "equation/stepper and only really missing names'; misspelt "
+         "dest/source/stepper array names are checked concretely.",
+    note="ParticleArray is a model with symbolic name sets; set/list/print "
+         "shadowed in the modules under test; dereferenced names are read "
+         "from the real get_dest_array_setup/get_src_array_setup/"
+         "get_array_setup; known finding: implicit (precomputed-symbol) "
+         "needs are not checked by pysph",
+    technique="symbolic execution of the python checker code on symbolic "
+              "finite sets (z3 Bool per element), per-path SMT query, "
+              "replay with real ParticleArrays",
+    design="2/C20")
+
 NOT_APPLICABLE = {
     "C05": "whole-application runs of compiled OpenMP code compared across "
            "configurations up to summation order: no unit a solver can "
